@@ -23,7 +23,7 @@ theorem prV3Connect_eff {c : C} (h : Wf c) (parsed : Except Nat Pkt) :
     | error e =>
       simp only []
       refine Eff.err ?_ _
-      exact Eff.via h (by quiet_tac) (fun h' => psV3Connack_eff h' _)
+      exact Eff.via h (by quiet_tac) (fun h' => (psV3Connack_eff h' _).cast (psV3ConnackClears_errRc _ e))
     | ok p =>
       simp only []
       cases hc : p.clean <;> simp only [if_true, if_false, Bool.false_eq_true] <;>
@@ -40,7 +40,7 @@ theorem prV5Connect_eff {c : C} (h : Wf c) (parsed : Except Nat Pkt) :
     | error e =>
       simp only []
       refine Eff.err ?_ _
-      exact Eff.via h (by quiet_tac) (fun h' => psV5Connack_eff h' _)
+      exact Eff.via h (by quiet_tac) (fun h' => (psV5Connack_eff h' _).cast (psV5ConnackClears_errRc _ e))
     | ok p =>
       simp only []
       cases hc : p.clean <;> simp only [if_true, if_false, Bool.false_eq_true] <;>
